@@ -7,6 +7,7 @@
 //   cf                       indication_confirmed()
 //   cl                       clear_indications_and_confirmations()
 //   drain                    { indication_confirmed(); dequeue } until dequeue returns empty; then event "Drained"
+//   mark                     only writes the event "Drained" (used by --replay, which re-executes recorded events)
 // trace events (one per public call, written after the call returned):
 //   {"e":"Reset","s":[s1,s2,s3]}  {"e":"qn"|"qi","i":i,"r":bool}  {"e":"dq","k":"n"|"i"|"e","i":idx}
 //   {"e":"cf"}  {"e":"cl"}  {"e":"Drained","calls":n}
@@ -107,6 +108,7 @@ int main(int argc, char** argv) {
         else if (c.op == "dq")  { log_dq(t, *q, empty); }
         else if (c.op == "cf")  { q->cf(); t.ev("cf").end(); }
         else if (c.op == "cl")  { q->cl(); t.ev("cl").end(); }
+        else if (c.op == "mark") { t.ev("Drained").f("calls", -1).end(); }
         else if (c.op == "drain") {
             int calls = 0;
             for (; calls < 1000; ++calls) {
